@@ -277,9 +277,9 @@ package ast
 //@   loop 1 atback !(c < 128 || !encode) ==> len(buf) >= prev(len(buf)) + 2
 
 // ---- C04: reading mode descriptors: "+" is input, "-" is output, "?" is either ---------------------------------------
-// (the function literal convertMode of Decl.Modes, named as go/ssa names it)
+// (the function literal convertMode of Decl.Modes, named as go/ssa names it, with the method's receiver)
 //@ spec func modeOf(t BaseTerm) ArgMode = (t as Constant).Symbol == InputString ? ArgModeInput : ((t as Constant).Symbol == OutputString ? ArgModeOutput : ArgModeInputOutput)
-//@ func Modes$1(args)
+//@ func (d Decl) Modes$1(args)
 //@   opt nosafety
 //@   ensures result != nil ==> len(result) == len(args) && (forall i int :: 0 <= i && i < len(args) ==> result[i] == modeOf(args[i]))
 //@   loop 1 invariant len(mode) == rangeindex + 1 && (forall i int :: 0 <= i && i < rangeindex + 1 ==> mode[i] == modeOf(args[i]))
